@@ -133,6 +133,13 @@ CLAIMED = {
             "complete text starts the input.",
             "Empty / blank-only texts and a foreign byte directly after a number or literal are unspecified; 'same meaning of the prefix' follows "
             "from Len = |S| and is not re-checked.", "3/C14"),
+    "C13": ("TLA+ module Surface enumerates layout vectors (house style, all single deviations, line-end pairs; all pairs in the thorough tier) and "
+            "document spellings; expectations are the verdict vectors of Sem / Chk computed for the abstract schema, which by construction do not "
+            "depend on the spelling; replay of every spelling through Check, GetAST and Validate",
+            "Every sampled schema of the GenRules / GenShape / GenTypes / GenExample domains is rendered under every layout vector; each spelling must "
+            "pass Check, give the house-style AST (comments and notes aside, rule maps unordered) and the TLC verdict on a stride of documents; every "
+            "selected document is re-spelled 18 ways (whitespace, property order, \\uXXXX and \\/ escapes in values and keys) and must keep its verdict.",
+            "Only rewrites the statement lists, at positions the language admits; quick tier: strength-1 cover plus line-end pairs, thorough: strength 2.", "3/C13"),
 }
 
 PENDING_REASON = "check under construction in this session - not claimed yet (no technique switch intended; see DESIGN.md section 3)"
